@@ -1,11 +1,13 @@
 use crate::{Args, events::Log};
 pub mod c03;
 pub mod padding;
+pub mod mux;
 
 pub fn run(args: &Args, log: &Log) -> Result<(), String> {
     match args.driver.as_str() {
         "c03" => c03::run(args, log),
         "padding" => padding::run(args, log),
+        "mux" => mux::run(args, log),
         d => Err(format!("unknown driver {d}")),
     }
 }
